@@ -105,3 +105,34 @@ def check(ctx):
         ctx.test_leads_to_error("3.init-refuses-initialised-key", ib, ck, truth=True)
         bws = ib.calls_to("fuel_core_storage::kv_store::BatchOperations::batch_write")
         ctx.expect_sites("3.init-writes-values-and-nodes", bws, exactly=2, what="batch_write(value column) + batch_write(nodes)")
+
+    # -- 4. batch insert / remove: the tree sees every element the value column sees --
+    with ctx.clause("4.batch-tree-agrees-with-column"):
+        for m, tree_op in (("insert", f"{TREE}::insert"), ("remove", f"{TREE}::delete")):
+            u = F.units(f"<{SP} as {SB}>::{m}", crate="fuel_core_storage")[0]
+            b = u.root
+            ops = [c for c in b.calls if c.bb in b.live and c.is_path(tree_op)]
+            ctx.expect_sites(f"4.{m}-tree-update", ops, exactly=1, what=f"tree.{tree_op.rsplit('::', 1)[-1]}(key, ..) in the batch loop")
+            if not ops:
+                continue
+            op = ops[0]
+            loops = [c for c in b.calls_to("core::iter::traits::iterator::Iterator::next") if c.bb in b.live and b.path([c.target], [op.bb]) is not None and b.path([op.target], [c.bb]) is not None]
+            ctx.expect_sites(f"4.{m}-batch-loop", loops, exactly=1, what="loop over the encoded batch")
+            if not loops:
+                continue
+            nx = loops[0]
+            some, _ = ctx.ok_edges(nx)
+            starts = [ctx._edge_target(b, e) for e in some]
+            p = b.path(starts, [nx.bb], cut_blocks=[op.bb] + list(b.error_blocks()))
+            ctx.add(f"4.{m}-every-element-updates-the-tree", "MPT", p is None,
+                    f"batch {m}: every element of the batch reaches the tree update (an element skipped here is still written to / removed from the value column, so root and contents diverge)",
+                    sites=[op.where()], site_key=m + ":each", witness=None if p is None else {"path": b.describe_path(p)})
+            ctx.arg_origin(f"4.{m}-tree-key-from-loop-item", op, 1, "call:core::iter::traits::iterator::Iterator::next", depth=2)
+            bw = sorted(b.calls_to("fuel_core_storage::kv_store::BatchOperations::batch_write"), key=lambda c: c.bb)
+            if bw:
+                # the column write and the tree loop consume the same collected set
+                o = Origins(b, 2)
+                col = {v for k, v in o.atoms(bw[0].args[2]) if k == "call" and str(v).endswith("collect_vec")}
+                tre = {v for k, v in o.atoms(nx.args[0]) if k == "call" and str(v).endswith("collect_vec")}
+                ctx.add(f"4.{m}-same-set-for-tree-and-column", "PROV", bool(col) and col == tre and len([c for c in b.calls if c.bb in b.live and c.name == "collect_vec"]) == 1,
+                        f"batch {m}: the tree loop and the column write iterate the one encoded set", sites=[bw[0].where(), nx.where()], site_key=m + ":set")
